@@ -1,6 +1,7 @@
 /-
   C16 — generation options run exactly the selected rail categories; the returned log lists the rails that ran,
-  `stop` on exactly the blocking one.  Property theorems only (lemmas: Lemmas/GenLog.lean, Lemmas/PipelineOpts.lean).
+  `stop` on exactly the blocking one.  Property theorems only (lemmas: Lemmas/GenLog*.lean, Lemmas/PipelineOpts.lean,
+  Lemmas/Rails*.lean).
 
   `Gd` are the guards of the CURRENT `rails/llm/llm_flows.co` (regenerated on every run), `K` the literal tables of the
   current `compute_generation_log`.  Everything is universally quantified over the configuration (any number of
@@ -9,6 +10,9 @@
 import NemoVerif.Lemmas.GenLog
 import NemoVerif.Lemmas.PipelineOpts
 import NemoVerif.Lemmas.RailsInterp
+import NemoVerif.Lemmas.RailsRefine
+import NemoVerif.Lemmas.GenLogCounts
+import NemoVerif.Lemmas.GenLogTurn
 
 namespace NemoVerif.C16
 open NemoVerif NemoVerif.OptGuard NemoVerif.GenLog NemoVerif.PipelineOpts
@@ -279,5 +283,349 @@ open NemoVerif.RailsInterp in
     llm_flows program (rail calls in order with the text each saw, LLM calls, utterance) equals the trace of `turn`. -/
 theorem pipeline_refines_interp_partial : refinesOn exSetup (casesFor ["hi", "bad"] ["evil", "fine"]) = true := by
   decide +kernel
+
+
+
+/-! ## Phase 4 — `pipeline_refines_interp` for UNBOUNDED rail lists
+
+  Method (Lemmas/RailsDrive … RailsRefine): (1) `drive` (the history-based loop of `generate_events`: every iteration
+  re-runs `compute_next_steps` on the whole history) is reduced to a state-based big-step relation `Runs` over the
+  interpreter state (`drive_of_runs`, program-independent); (2) every transition of the interpreter on the generated
+  program that a turn can take is proved by symbolic execution of `computeNextState` on the GENERATED elements (context,
+  uids, rail lists arbitrary): entry into `process user input` with its two `if`s, into / out of `run input rails`, the
+  three branches of `run dialog rails`, `process bot message` with `$skip_output_rails` / `$config.rails.output.flows` /
+  `$generation_options.rails.output`, into / out of `run output rails`, the loop iterations of both loops, and the tail of a
+  rejecting rail (`bot refuse to respond` → extension flow `generate bot message` → `BotMessage` → a fresh `process bot
+  message` that resets `$skip_output_rails` and utters → `bot stop`) with the input and with the output frames; (3) the
+  loops by induction over the rail list; (4) the specification side is shown to be `PipelineOpts.turn` with the generated
+  guards.  Each `*_elems` fact used is an `rfl` about `Generated.LlmFlowsV1.flows`: an edit of ANY of the nine flows of
+  llm_flows.co breaks the proof of the transitions that use it.
+
+  Scope: rails of the two shipped shapes (check rail `$allowed = execute a / if not $allowed / bot refuse to respond /
+  stop`, rewriting rail `$user_message|$bot_message = execute a`) with arbitrary verdict functions, refusal mode (no rails
+  exceptions), no retrieval rails, the `general` dialog (no user intents defined), first call of a conversation.  Not in
+  the interpreter model: the runtime's cap of 100 events per turn (`generate_events` raises "Too many events" — rail lists
+  beyond that are outside the real system), action faults. -/
+
+open NemoVerif.V1Interp NemoVerif.RailsInterp in
+/-- **Loop discipline of the generated `run output rails` inside the extension flow `process bot message`, for every number
+    of rails** — the output twin of `interp_input_rails_loop`: from the head of the `while` loop at index `k` with
+    `$bot_message = bm`, replaying the events `generate_events` appends while the remaining rails let the message pass leads
+    to the exit state: `run output rails` completed, `process bot message` resumed at `create event OutputRailsFinished`,
+    `$i = len($output_flows)`, `$bot_message` / `$allowed` = the fold of the rails over the text. -/
+theorem interp_output_rails_loop (rails : Cfgs) (hsub : ∀ r ∈ rails, r.isSubflow = true) (names : List String) (u0 u1 : Nat) (h01 : u0 < u1)
+    (rs : List IRail) (k : Nat) (u : Ctx) (bm al : V) (es : List Event) (hrun : LoopRunO rs k u bm al es)
+    (hnames : names.drop k = rs.map (·.name)) (hok : ∀ r ∈ rs, RailOKO rails r)
+    (σ : Ctx) (c : Nat) (h1c : u1 < c) (hF : FactsO (σ.update u) k names bm al) (rest : List Event) :
+    ∃ σ' c', FactsO σ' names.length names (finalVals rs bm al).1 (finalVals rs bm al).2 ∧
+      replay true (RailsInterp.base ++ rails) (es ++ rest) (headStateO σ u c u0 u1)
+        = replay true (RailsInterp.base ++ rails) rest (exitStateO σ' c' u0 u1) :=
+  output_rails_loop rails hsub names u0 u1 h01 rs k u bm al es hrun hnames hok σ c h1c hF rest
+
+open NemoVerif.RailsInterp in
+/-- non-vacuity of `interp_output_rails_loop`'s run predicate (finite fact) -/
+example : LoopRunO exSetup.output 0 [] (.str "fine") .none (iterEventsO [] exSetup.output[0] (some (.bool true)) 0 .none .none) :=
+  .last _ 0 [] _ _ _ _ _ (by show ("fine" != "evil") = true; decide) rfl
+
+open NemoVerif.RailsInterp in
+/-- **`pipeline_refines_interp`** — for EVERY set-up (input and output rail lists of any length; check rails with arbitrary
+    verdict functions, rewriting rails with arbitrary functions; names / actions identify the rail: `Setup.WF`), EVERY option
+    value (the 16 subsets and the call without options), all user texts and bot messages (a bot message is supplied when
+    dialog is deselected and output selected: `BotOK`): with enough fuel, the loop of `generate_events` around the Colang 1.0
+    interpreter model running the GENERATED llm_flows.co program executes exactly the observable steps of
+    `PipelineOpts.turn` with the guards of the current llm_flows.co — the same rail actions in the same order on the same
+    texts (each rail sees the text as altered by its predecessors; nothing after a rejecting rail; no output rails on the
+    refusal), the same LLM calls (one `generate_user_intent` call iff dialog rails are selected), the same utterance. -/
+theorem pipeline_refines_interp (s : Setup) (hwf : s.WF) (o : Option (Bool × Bool × Bool × Bool)) (user : String) (bot : Option String)
+    (hb : BotOK o bot) :
+    ∃ N, ∀ fuel, N ≤ fuel → driveTraceN fuel s o user bot = turnTrace s o user bot :=
+  refines s hwf o user bot hb
+
+open NemoVerif.RailsInterp in
+/-- … and what that trace is, as a function of the rail lists (the documented table, interpreter side) -/
+theorem interp_trace_is_spec (s : Setup) (hwf : s.WF) (o : Option (Bool × Bool × Bool × Bool)) (user : String) (bot : Option String)
+    (hb : BotOK o bot) :
+    ∃ N, ∀ fuel, N ≤ fuel → driveTraceN fuel s o user bot = some (specTrace s o user bot) := by
+  obtain ⟨N, h⟩ := refines s hwf o user bot hb
+  exact ⟨N, fun f hf => (h f hf).trans (specTrace_eq_turn s o user bot hb)⟩
+
+open NemoVerif.RailsInterp in
+/-- the state-based form: after the history `generate_async` hands over, the driver `Runs` exactly the specification trace
+    (no fuel; `Runs` = big-step rounds of `generate_events` over the interpreter state) -/
+theorem interp_turn_runs (s : Setup) (hwf : s.WF) (o : Option (Bool × Bool × Bool × Bool)) (user : String) (bot : Option String)
+    (hb : BotOK o bot) :
+    ∃ st, V1Interp.replay true (RailsInterp.base ++ s.rails) (initialHistory o user bot) { ctx := s.config } = .ok st ∧
+      Runs s (RailsInterp.base ++ s.rails) st (specTrace s o user bot) :=
+  turn_runs s hwf o user bot hb
+
+open NemoVerif.RailsInterp in
+/-- **Exactly the selected categories run — at the level of the interpreter on the generated program**: in the trace the
+    loop of `generate_events` executes (any rail lists, any verdict functions, any option value), an input rail action is
+    executed only if input rails are selected, an output rail action only if output rails are selected, the LLM is called
+    only if dialog rails are selected, and no other rail action is executed at all. -/
+theorem interp_only_selected_run (s : Setup) (hwf : s.WF) (o : Option (Bool × Bool × Bool × Bool)) (user : String) (bot : Option String)
+    (hb : BotOK o bot) :
+    ∃ N, ∀ fuel, N ≤ fuel → ∃ tr, driveTraceN fuel s o user bot = some tr ∧
+      (∀ i n t, Obs.railCall "input" i n t ∈ tr → selI o = true) ∧ (∀ i n t, Obs.railCall "output" i n t ∈ tr → selO o = true) ∧
+      (Obs.llmCall ∈ tr → selD o = true) ∧ (∀ c i n t, Obs.railCall c i n t ∈ tr → c = "input" ∨ c = "output") := by
+  obtain ⟨N, h⟩ := interp_trace_is_spec s hwf o user bot hb
+  exact ⟨N, fun f hf => ⟨_, h f hf, specTrace_selected s o user bot⟩⟩
+
+open NemoVerif.RailsInterp in
+/-- **Later calls of a conversation** (the interpreter-level side of `calls_independent`): a call whose history ends in a
+    QUIESCENT interpreter state — no flow state left, any uid counter, any context `σS` that still holds the configuration
+    keys and in which `$skip_output_rails` is falsy — and that records its own options (or no options were ever recorded)
+    executes exactly `specTrace` of ITS options, whatever the earlier calls left in `$allowed`, `$i`, `$user_message`,
+    `$bot_message`, `$relevant_chunks` or in earlier `$generation_options`.  (`interp_turn_runs` is the case `σS` = the
+    configuration, counter 0.)  Not proved: that every turn ENDS quiescent with the flag falsy (it does on every
+    evaluated instance; at the `turn` level this is `skip_flag_reset`). -/
+theorem interp_turn_runs_from (s : Setup) (hwf : s.WF) (o : Option (Bool × Bool × Bool × Bool)) (user : String) (bot : Option String)
+    (hb : BotOK o bot) (σS : V1Interp.Ctx) (cS : Nat) (hcfg : CfgCtx s σS) (hsk : (σS.get "skip_output_rails").truthy = false)
+    (hopt : o = none → NoOpts σS) :
+    ∃ st, V1Interp.replay true (RailsInterp.base ++ s.rails) (initialHistory o user bot)
+        { ctx := σS, flows := [], next := none, upd := [], ctr := cS } = .ok st ∧
+      Runs s (RailsInterp.base ++ s.rails) st (specTrace s o user bot) :=
+  turn_runs_from s hwf o user bot hb σS cS hcfg hsk hopt
+
+open NemoVerif.RailsInterp in
+/-- non-vacuity of `interp_turn_runs_from`: a context left by an earlier call (stale options, stale `$allowed`, flag reset) -/
+example : CfgCtx exSetup (((exSetup.config.set "generation_options.rails.input" (.bool false)).set "allowed" (.bool false)).set "skip_output_rails" (.bool false)) ∧
+    ((((exSetup.config.set "generation_options.rails.input" (.bool false)).set "allowed" (.bool false)).set "skip_output_rails" (.bool false)).get "skip_output_rails").truthy = false := by
+  refine ⟨⟨?_, ?_, ?_⟩, ?_⟩ <;> ctx_norm <;> rfl
+
+open NemoVerif.RailsInterp in
+/-- **several calls on ONE conversation at the interpreter level, finite part** (kernel evaluation, labelled as such): for the
+    concrete set-up, five conversations of 2–3 calls with different option subsets — among them "input only, blocked
+    (refusal ⇒ `$skip_output_rails` set and reset), then output only with a bot message" — the history a call ends with being
+    the prefix of the next call's history: the interpreter loop on the generated llm_flows.co yields, call by call, the traces of
+    `PipelineOpts.session` (every turn ends quiescent, the flag does not leak).  The unbounded statement per call is
+    `interp_turn_runs_from`.  (With the seeded change C16-a in llm_flows.co the `rfl` facts about `process bot message` fail and
+    with them this whole module: obligations 0/584.) -/
+theorem session_refines_interp_partial :
+    (exSessions.all fun cs => driveCalls exSetup 80 [] cs == sessionTraces exSetup cs) = true := by
+  decide +kernel
+
+open NemoVerif.RailsInterp in
+/-- non-vacuity: the concrete set-up is well-formed (finite facts) -/
+theorem exSetup_wf : exSetup.WF :=
+  ⟨by decide, by decide, by decide, by decide⟩
+open NemoVerif.RailsInterp in
+example : BotOK (some (true, false, false, true)) (some "evil") := fun _ _ => rfl
+open NemoVerif.RailsInterp in
+/-- … and on it the specification trace is the documented row (kernel evaluation): input rails pass ("hi" → "hi!"), the output
+    rail rejects "evil" ⇒ refusal -/
+example : specTrace exSetup (some (true, false, false, true)) "hi" (some "evil") =
+    [.railCall "input" 0 "in0" "hi", .railCall "input" 1 "in1" "hi", .railCall "output" 0 "out0" "evil", .utter "no"] := by decide
+
+/-! ## The generation log: LLM-call count and executed actions
+
+  (paste into `Theorems/C16.lean` inside `namespace NemoVerif.C16`, before `end NemoVerif.C16`; add
+   `import NemoVerif.Lemmas.GenLogCounts` and `import NemoVerif.Lemmas.GenLogTurn` to the imports.) -/
+
+/-- **Every `llm_call_info` entry is counted exactly once** — for EVERY processing log on which
+    `compute_generation_log` returns (induction over the log from an arbitrary loop state satisfying the invariant
+    "`executed_action`, when set, is an action object inside one of the rails of the list", `GenLog.Inv`): the returned
+    `stats.llm_calls_count` is the number of `llm_call_info` entries of the log. -/
+theorem llm_count_exact (L : List LogEv) (out : GenLog.Out) (h : compute K L = .ok out) :
+    out.llmCalls = (L.filter LogEv.isLlm).length :=
+  compute_llmCalls K L out h
+
+/-- … and that number is the sum, over the returned rails and their executed actions, of the recorded LLM calls
+    (what the final loop of `compute_generation_log` sums). -/
+theorem llm_count_is_sum_over_rails (L : List LogEv) (out : GenLog.Out) (h : compute K L = .ok out) :
+    out.llmCalls = llmCount out.rails ∧ llmCount out.rails = (L.filter LogEv.isLlm).length :=
+  ⟨compute_llmCalls_sum K L out h, by rw [← compute_llmCalls_sum K L out h]; exact compute_llmCalls K L out h⟩
+
+/-- the same for arbitrary literal tables -/
+theorem llm_count_exact_any_tables (K' : Consts) (L : List LogEv) (out : GenLog.Out) (h : compute K' L = .ok out) :
+    out.llmCalls = (L.filter LogEv.isLlm).length :=
+  compute_llmCalls K' L out h
+
+/-- non-vacuity (finite fact, by evaluation): a log with two LLM entries under two different actions of two rails -/
+example : (compute K [.startIn "r", .actStart "a", .llm "t", .actFin "a", .railFin, .step "f" [], .actStart "b", .llm "u", .actFin "b"]).toOption.map
+    (fun o => (o.llmCalls, o.rails.length)) = some (2, 2) := by decide
+
+/-- **The executed actions are the actions that were started** — for EVERY processing log on which
+    `compute_generation_log` returns: the action names of the returned rails, rail by rail and in order, are exactly the
+    `StartInternalSystemAction` entries of the log whose action is not ignored (`create_event`), in log order. -/
+theorem executed_actions_exact (L : List LogEv) (out : GenLog.Out) (h : compute K L = .ok out) :
+    out.rails.flatMap (fun r => r.actions.map (·.name)) = startedActs K L :=
+  compute_executedActions K L out h
+
+/-- non-vacuity (finite fact, by evaluation) -/
+example : (compute K [.startIn "r", .actStart "a", .actStart "create_event", .actFin "a", .railFin, .step "f" [], .actStart "b"]).toOption.map
+    (fun o => o.rails.flatMap (fun r => r.actions.map (·.name))) = some ["a", "b"] := by decide
+
+/-- **LLM-call count of the generation log of a turn**: whatever the configuration (rails whose own entries are acceptable
+    inside an open rail), options, texts and dialog, the generation log of the turn's processing log exists and its
+    `stats.llm_calls_count` is the number of LLM generations of the trace plus the `llm_call_info` entries the bodies of the
+    CALLED rails write (`noiseLlm`: for each `railCall c i …` of the trace, the `llm` entries of rail `i` of category `c`). -/
+theorem turn_llm_count (cfg : Cfg) (ha : cfg.accepted) (opts : Option Opts) (user : String) (bot : Option String) (dlg : Dialog)
+    (out : PipelineOpts.Out) (h : turn Gd cfg opts user bot dlg = some out) :
+    ∃ gl, compute K out.log = .ok gl ∧ gl.llmCalls = out.trace.count Step.llmCall + noiseLlm cfg out.trace := by
+  obtain ⟨gl, hg⟩ := compute_returns_on_turn_logs cfg ha opts user bot dlg out h
+  exact ⟨gl, hg, turn_llmCalls cfg opts user bot dlg out h gl hg⟩
+
+/-- rails that record no LLM call themselves: the count is exactly the number of LLM generations of the turn -/
+theorem turn_llm_count_quiet (cfg : Cfg) (ha : cfg.accepted) (hq : cfg.llmFree) (opts : Option Opts) (user : String) (bot : Option String)
+    (dlg : Dialog) (out : PipelineOpts.Out) (h : turn Gd cfg opts user bot dlg = some out) :
+    ∃ gl, compute K out.log = .ok gl ∧ gl.llmCalls = out.trace.count Step.llmCall := by
+  obtain ⟨gl, hg, hc⟩ := turn_llm_count cfg ha opts user bot dlg out h
+  exact ⟨gl, hg, by rw [hc, noiseLlm_llmFree cfg hq]; rfl⟩
+
+/-- **"no LLM generation happens" shows in the returned log**: dialog rails not selected and rails that record no LLM call
+    themselves ⇒ the generation log of the turn reports 0 LLM calls. -/
+theorem no_llm_calls_logged_without_dialog (cfg : Cfg) (ha : cfg.accepted) (hq : cfg.llmFree) (o : Opts) (hd : o.dialog = false)
+    (user : String) (bot : Option String) (dlg : Dialog) (out : PipelineOpts.Out) (h : turn Gd cfg (some o) user bot dlg = some out) :
+    ∃ gl, compute K out.log = .ok gl ∧ gl.llmCalls = 0 := by
+  obtain ⟨gl, hg, hc⟩ := turn_llm_count_quiet cfg ha hq (some o) user bot dlg out h
+  exact ⟨gl, hg, by rw [hc]; exact llmSteps_dialog_off cfg o hd user bot dlg out h⟩
+
+/-- without dialog rails, whatever the rails record: the count is what the called rails' bodies write -/
+theorem llm_calls_without_dialog_are_the_rails (cfg : Cfg) (ha : cfg.accepted) (o : Opts) (hd : o.dialog = false)
+    (user : String) (bot : Option String) (dlg : Dialog) (out : PipelineOpts.Out) (h : turn Gd cfg (some o) user bot dlg = some out) :
+    ∃ gl, compute K out.log = .ok gl ∧ gl.llmCalls = noiseLlm cfg out.trace := by
+  obtain ⟨gl, hg, hc⟩ := turn_llm_count cfg ha (some o) user bot dlg out h
+  refine ⟨gl, hg, ?_⟩
+  have := llmSteps_dialog_off cfg o hd user bot dlg out h
+  unfold llmSteps at this
+  rw [hc, this, Nat.zero_add]
+
+/-- non-vacuity: `exCfg` satisfies the hypotheses (finite facts) -/
+example : exCfg.llmFree := exCfg_llmFree
+example : ((turn Gd exCfg (some ⟨true, false, false, true⟩) "hi" (some "evil") (.general "x")).map fun o =>
+      ((compute K o.log).toOption.map (·.llmCalls), o.trace.count Step.llmCall)) = some (some 0, 0) := by decide
+example : ((turn Gd exCfg none "hi" none (.intent "f" "bot hi" false "fine")).map fun o =>
+      ((compute K o.log).toOption.map (·.llmCalls), o.trace.count Step.llmCall)) = some (some 2, 2) := by decide
+
+/-! ## The generation log: decisions of the input/output rails -/
+
+/-- **Decisions of the input/output rails** — for EVERY processing log on which `compute_generation_log` returns (induction
+    over the log from an arbitrary loop state, `run_decs`): the `decisions` of the returned input/output rails, in order,
+    are what one pass over the log says (`decisionsSpec`): a rail collects the `next_steps` decisions (`execute <action>` for
+    non-ignored actions, bot intents) of exactly the `step` entries between its start entry and the next rail-start /
+    rail-finish entry, and `"stop"` is appended iff no such entry follows.  (Same hypothesis as `stop_on_blocker`.) -/
+theorem io_decisions_exact (L : List LogEv) (out : GenLog.Out) (h : compute K L = .ok out)
+    (hn : ∀ k ∈ stopSpec L, k.name ≠ K.relabelName) : ioDecs out.rails = decisionsSpec K none L :=
+  compute_ioDecs K L out h hn
+
+/-- non-vacuity (finite fact, by evaluation): a finished rail, then a rail that is left open -/
+example : (compute K [.startIn "a", .step "a" [.act "check", .act "create_event"], .railFin, .step "f" [.intent "x"], .startOut "b",
+      .step "b" [.intent "refuse to respond"], .step "generate bot message" [.other]]).toOption.map (fun o => ioDecs o.rails)
+    = some [["execute check"], ["refuse to respond", "stop"]] := by decide
+example : ∀ k ∈ stopSpec [LogEv.startIn "a", .railFin, .startOut "b"], k.name ≠ K.relabelName := by decide
+
+/-- **Decisions of the input/output rails in the generation log of a turn**: whatever the configuration (rails with marker-free
+    bodies), options, texts and dialog, when `compute_generation_log` returns on the turn's processing log: each called
+    input/output rail carries the decisions of its own `step` entries (`calledDecs`); if a rail ended the turn
+    (`out.blocker`), that last rail additionally carries a tail `tl` and the final `"stop"` (`closeLastO (some tl)`), where
+    `tl = []` for a faulting rail / rails-exception mode and `tl = refusalDecs` (= `refuse to respond`,
+    `execute retrieve_relevant_chunks`, the retrieval rails' own decisions, `execute generate_bot_message`) when the refusal
+    is uttered (`TailSpec`). -/
+theorem io_decisions_on_turn_logs (cfg : Cfg) (hc : cfg.clean) (opts : Option Opts) (user : String) (bot : Option String) (dlg : Dialog)
+    (out : PipelineOpts.Out) (h : turn Gd cfg opts user bot dlg = some out)
+    (hn : ∀ c i n x, Step.railCall c i n x ∈ out.trace → n ≠ K.relabelName)
+    (gl : GenLog.Out) (hg : compute K out.log = .ok gl) :
+    ∃ t : Option (List String), t.isSome = out.blocker.isSome ∧ (t.isSome = true → calledDecs K cfg out.trace ≠ []) ∧
+      ioDecs gl.rails = closeLastO t (calledDecs K cfg out.trace) ∧ TailSpec cfg opts out.reply t :=
+  turn_ioDecs cfg hc opts user bot dlg out h hn gl hg
+
+/-- no rail ended the turn: every input/output rail of the generation log carries exactly its own decisions (no `"stop"` added) -/
+theorem unblocked_rails_keep_own_decisions (cfg : Cfg) (hc : cfg.clean) (opts : Option Opts) (user : String) (bot : Option String)
+    (dlg : Dialog) (out : PipelineOpts.Out) (h : turn Gd cfg opts user bot dlg = some out) (hb : out.blocker = none)
+    (hn : ∀ c i n x, Step.railCall c i n x ∈ out.trace → n ≠ K.relabelName)
+    (gl : GenLog.Out) (hg : compute K out.log = .ok gl) : ioDecs gl.rails = calledDecs K cfg out.trace :=
+  turn_ioDecs_unblocked cfg hc opts user bot dlg out h hb hn gl hg
+
+/-- **a rail that blocks in refusal mode**: the earlier rails carry their own decisions; the blocking rail (the last one)
+    carries its own, then `refuse to respond`, the `generate bot message` steps, and finally `stop`. -/
+theorem refusing_rail_decisions (cfg : Cfg) (hc : cfg.clean) (he : cfg.exceptions = false) (hne : cfg.refusal ≠ cfg.internalError)
+    (opts : Option Opts) (user : String) (bot : Option String) (dlg : Dialog) (out : PipelineOpts.Out)
+    (h : turn Gd cfg opts user bot dlg = some out) (hb : out.blocker.isSome = true) (hr : out.reply = .text cfg.refusal)
+    (hn : ∀ c i n x, Step.railCall c i n x ∈ out.trace → n ≠ K.relabelName)
+    (gl : GenLog.Out) (hg : compute K out.log = .ok gl) :
+    ∃ D d, calledDecs K cfg out.trace = D ++ [d] ∧ ioDecs gl.rails = D ++ [d ++ refusalDecs cfg opts ++ ["stop"]] :=
+  turn_ioDecs_refused cfg hc he hne opts user bot dlg out h hb hr hn gl hg
+
+/-- a rail that faults, or rejects in rails-exception mode: its own decisions, then `stop` -/
+theorem faulting_rail_decisions (cfg : Cfg) (hc : cfg.clean) (opts : Option Opts) (user : String) (bot : Option String) (dlg : Dialog)
+    (out : PipelineOpts.Out) (h : turn Gd cfg opts user bot dlg = some out) (hb : out.blocker.isSome = true)
+    (hr : out.reply ≠ .text cfg.refusal)
+    (hn : ∀ c i n x, Step.railCall c i n x ∈ out.trace → n ≠ K.relabelName)
+    (gl : GenLog.Out) (hg : compute K out.log = .ok gl) :
+    ∃ D d, calledDecs K cfg out.trace = D ++ [d] ∧ ioDecs gl.rails = D ++ [d ++ ["stop"]] :=
+  turn_ioDecs_faulted cfg hc opts user bot dlg out h hb hr hn gl hg
+
+/-- non-vacuity of `refusing_rail_decisions` (finite facts, by evaluation): `exCfg` (refusal mode, refusal ≠ internal error), options
+    input+output, bot message rejected by `out0`: hypotheses hold and the log reads as stated. -/
+example : exCfg.exceptions = false ∧ exCfg.refusal ≠ exCfg.internalError := by decide
+example : ((turn Gd exCfg (some ⟨true, false, false, true⟩) "hi" (some "evil") (.general "x")).map fun o =>
+      (o.blocker.isSome, o.reply)) = some (true, .text "no") := by decide
+example : ((turn Gd exCfg (some ⟨true, false, false, true⟩) "hi" (some "evil") (.general "x")).map fun o =>
+      (compute K o.log).toOption.map fun g => ioDecs g.rails)
+    = some (some [["execute check"], ["execute check"],
+        ["execute check", "refuse to respond", "execute retrieve_relevant_chunks", "execute generate_bot_message", "stop"]]) := by decide
+example : ((turn Gd exCfg (some ⟨true, false, false, true⟩) "hi" (some "evil") (.general "x")).map fun o => calledDecs K exCfg o.trace)
+    = some [["execute check"], ["execute check"], ["execute check"]] := by decide
+example : refusalDecs exCfg (some ⟨true, false, false, true⟩)
+    = ["refuse to respond", "execute retrieve_relevant_chunks", "execute generate_bot_message"] := by decide
+
+/-! ## The generation log: executed actions of the input/output rails, rail by rail -/
+
+/-- **Which rail an executed action is attributed to** — for EVERY processing log on which `compute_generation_log` returns:
+    the executed-action names of the returned input/output rails, rail by rail, are what one pass over the log says
+    (`actionsSpec`): a rail gets exactly the non-ignored `StartInternalSystemAction` entries between its start entry and the
+    next rail-start / rail-finish entry.  (Same hypothesis as `stop_on_blocker`.) -/
+theorem io_actions_exact (L : List LogEv) (out : GenLog.Out) (h : compute K L = .ok out)
+    (hn : ∀ k ∈ stopSpec L, k.name ≠ K.relabelName) : ioActs out.rails = actionsSpec K none L :=
+  compute_ioActs K L out h hn
+
+/-- non-vacuity (finite fact, by evaluation) -/
+example : (compute K [.startIn "a", .actStart "x", .actStart "create_event", .actFin "x", .railFin, .step "f" [], .actStart "y", .actFin "y",
+      .startOut "b", .actStart "z"]).toOption.map (fun o => ioActs o.rails) = some [["x"], ["z"]] := by decide
+
+/-- **Executed actions of the input/output rails in the generation log of a turn** (same shape as `io_decisions_on_turn_logs`):
+    each called input/output rail carries the actions its own body starts (`calledActs`); the rail that ended the turn also gets
+    the tail `tl` (`extendLastO`), `tl = []` for a fault / rails-exception mode, `tl = refusalActs` (= `retrieve_relevant_chunks`,
+    the retrieval rails' own actions, `generate_bot_message`: the refusal is generated while the blocked rail is still the
+    active one) when the refusal is uttered (`TailSpecA`). -/
+theorem io_actions_on_turn_logs (cfg : Cfg) (hc : cfg.clean) (opts : Option Opts) (user : String) (bot : Option String) (dlg : Dialog)
+    (out : PipelineOpts.Out) (h : turn Gd cfg opts user bot dlg = some out)
+    (hn : ∀ c i n x, Step.railCall c i n x ∈ out.trace → n ≠ K.relabelName)
+    (gl : GenLog.Out) (hg : compute K out.log = .ok gl) :
+    ∃ t : Option (List String), t.isSome = out.blocker.isSome ∧ (t.isSome = true → calledActs K cfg out.trace ≠ []) ∧
+      ioActs gl.rails = extendLastO t (calledActs K cfg out.trace) ∧ TailSpecA cfg opts out.reply t :=
+  turn_ioActs cfg hc opts user bot dlg out h hn gl hg
+
+/-- no rail ended the turn, or the last one faulted / rails-exception mode: every input/output rail of the generation log
+    carries exactly the actions of its own body -/
+theorem rails_keep_own_actions (cfg : Cfg) (hc : cfg.clean) (opts : Option Opts) (user : String) (bot : Option String)
+    (dlg : Dialog) (out : PipelineOpts.Out) (h : turn Gd cfg opts user bot dlg = some out)
+    (hb : out.blocker = none ∨ out.reply ≠ .text cfg.refusal)
+    (hn : ∀ c i n x, Step.railCall c i n x ∈ out.trace → n ≠ K.relabelName)
+    (gl : GenLog.Out) (hg : compute K out.log = .ok gl) : ioActs gl.rails = calledActs K cfg out.trace := by
+  cases hbl : out.blocker with
+  | none => exact turn_ioActs_unblocked cfg hc opts user bot dlg out h hbl hn gl hg
+  | some b =>
+    rcases hb with hb | hb
+    · rw [hbl] at hb; cases hb
+    · exact turn_ioActs_faulted cfg hc opts user bot dlg out h (by rw [hbl]; rfl) hb hn gl hg
+
+/-- a rail that blocks in refusal mode is also charged with the actions that generate the refusal -/
+theorem refusing_rail_actions (cfg : Cfg) (hc : cfg.clean) (he : cfg.exceptions = false) (hne : cfg.refusal ≠ cfg.internalError)
+    (opts : Option Opts) (user : String) (bot : Option String) (dlg : Dialog) (out : PipelineOpts.Out)
+    (h : turn Gd cfg opts user bot dlg = some out) (hb : out.blocker.isSome = true) (hr : out.reply = .text cfg.refusal)
+    (hn : ∀ c i n x, Step.railCall c i n x ∈ out.trace → n ≠ K.relabelName)
+    (gl : GenLog.Out) (hg : compute K out.log = .ok gl) :
+    ∃ D d, calledActs K cfg out.trace = D ++ [d] ∧ ioActs gl.rails = D ++ [d ++ refusalActs cfg opts] :=
+  turn_ioActs_refused cfg hc he hne opts user bot dlg out h hb hr hn gl hg
+
+/-- non-vacuity (finite facts, by evaluation; hypotheses as for `refusing_rail_decisions`) -/
+example : ((turn Gd exCfg (some ⟨true, false, false, true⟩) "hi" (some "evil") (.general "x")).map fun o =>
+      (compute K o.log).toOption.map fun g => ioActs g.rails)
+    = some (some [["check"], ["check"], ["check", "retrieve_relevant_chunks", "generate_bot_message"]]) := by decide
+example : ((turn Gd exCfg (some ⟨true, false, false, true⟩) "hi" (some "evil") (.general "x")).map fun o => calledActs K exCfg o.trace)
+    = some [["check"], ["check"], ["check"]] := by decide
+example : refusalActs exCfg (some ⟨true, false, false, true⟩) = ["retrieve_relevant_chunks", "generate_bot_message"] := by decide
 
 end NemoVerif.C16
